@@ -27,3 +27,133 @@ def _get_cc_module(I, fn, args, kwargs):
     if not isinstance(cc, str):
         return NotImplemented
     return I.native(fn.pyfunc, [cc, name], {})
+
+
+# ---------------------------------------------------------------------------------------------- numdb
+def _cylinders(low, high):
+    """the set {x : low <= x <= high, len(x) == len(low)} (lexicographic, equal lengths) as a union of products of
+    per-character intervals"""
+    from .isets import MAXCP
+    n = len(low)
+    lo = [ord(c) for c in low]
+    hi = [ord(c) for c in high]
+    if lo > hi:
+        return []
+    out = []
+    k = 0
+    while k < n and lo[k] == hi[k]:
+        k += 1
+    pre = [(c, c) for c in lo[:k]]
+    if k == n:
+        return [pre]
+    # first differing position k: lo[k] < hi[k]
+    if k == n - 1:
+        return [pre + [(lo[k], hi[k])]]
+    # middle block: lo[k] < x[k] < hi[k], rest free
+    if lo[k] + 1 <= hi[k] - 1:
+        out.append(pre + [(lo[k] + 1, hi[k] - 1)] + [(0, MAXCP)] * (n - k - 1))
+    # x[k] == lo[k], rest >= lo[k+1:]
+    cur = pre + [(lo[k], lo[k])]
+    for j in range(k + 1, n):
+        if j == n - 1:
+            out.append(cur + [(lo[j], MAXCP)])
+        else:
+            if lo[j] < MAXCP:
+                out.append(cur + [(lo[j] + 1, MAXCP)] + [(0, MAXCP)] * (n - j - 1))
+            cur = cur + [(lo[j], lo[j])]
+    # x[k] == hi[k], rest <= hi[k+1:]
+    cur = pre + [(hi[k], hi[k])]
+    for j in range(k + 1, n):
+        if j == n - 1:
+            out.append(cur + [(0, hi[j])])
+        else:
+            if hi[j] > 0:
+                out.append(cur + [(0, hi[j] - 1)] + [(0, MAXCP)] * (n - j - 1))
+            cur = cur + [(hi[j], hi[j])]
+    return out
+
+
+def spec_find(I, s, prefixes, budget):
+    """the declarative meaning of NumDB._find (DESIGN §C10) on a FixedStr; C10 proves the body equal to it"""
+    from .sym import And, in_set, simp, tostr
+    from .isets import ISet
+    ctx = I.ctx
+    s = tostr(s)
+    n = len(s)
+    if n == 0:
+        return []
+    budget[0] -= len(prefixes)
+    if budget[0] < 0:
+        raise Unsupported('registry too large to enumerate for a symbolic number (contract needed)')
+    lengths = sorted(set(e[0] for e in prefixes if e[0] <= n))
+    for l in lengths:
+        matched = []
+        for e in prefixes:
+            if e[0] != l:
+                continue
+            hit = False
+            for cyl in _cylinders(e[1], e[2]):
+                c = And(*[in_set(ch, ISet([iv])) for ch, iv in zip(s.chars[:l], cyl)])
+                if c is False:
+                    continue
+                if c is True or ctx.branch(c):
+                    hit = True
+                    break
+            if hit:
+                matched.append(e)
+        if matched:
+            props = {}
+            children = []
+            for e in matched:
+                props.update(e[3])
+                children.extend(e[4])
+            return [(simp(FixedStr(s.chars[:l])), props)] + spec_find(I, FixedStr(s.chars[l:]), children, budget)
+    return [(simp(s), {})]
+
+
+def numdb_info(I, db, number):
+    if isinstance(number, AbstractStr):
+        number = I.materialise(number)
+    number = I.norm_str(number)
+    if isinstance(number, str):
+        return I.native(db.info, [number], {})
+    if isinstance(number, FixedStr):
+        return spec_find(I, number, db.prefixes, [I.inline_numdb_limit])
+    if isinstance(number, LongStr):
+        raise Unsupported('registry lookup of a long string')
+    if number is None or isinstance(number, int) or is_sym(number):
+        raise Raise(TypeError, 'registry lookup of a non-string')
+    raise Unsupported('registry lookup of %r' % type(number).__name__)
+
+
+@contract('stdnum.numdb', 'NumDB._find')
+def _find(I, fn, args, kwargs):
+    number, prefixes = args
+    number = I.norm_str(number)
+    if isinstance(number, str):
+        return NotImplemented
+    if isinstance(number, FixedStr):
+        return spec_find(I, number, prefixes, [I.inline_numdb_limit])
+    return NotImplemented
+
+
+@contract('stdnum.numdb', 'get')
+def _numdb_get(I, fn, args, kwargs):
+    """the registry named by a concrete name, read by the real reader (C10/C11 tie the reader to the file text);
+    C13 proves the cache returns read(resource(name))"""
+    name = I.need_concrete(args[0], 'registry name')
+    return I.native(fn.pyfunc, [name], {})
+
+
+def _object_method(self, obj, name, args, kwargs):
+    import stdnum.numdb as nd
+    if isinstance(obj, nd.NumDB):
+        if name == 'info':
+            return numdb_info(self, obj, args[0])
+        if name == 'split':
+            return [p for p, _ in numdb_info(self, obj, args[0])]
+    return NotImplemented
+
+
+from .interp import Interp
+Interp.object_method = _object_method
